@@ -23,6 +23,11 @@
 //!   dropped; `x`: and the socket file is unlinked), `b` the channel is built (exactly once,
 //!   before any call), `c` one unary call.  Real time; a closed TCP port is kept reserved by a
 //!   bound, non-listening socket so that nothing else can take it.
+//!   Further e2e ops: `z`/`n`/`s`/`l` a call with `Request::set_timeout` of 0 / 1 ns / 20 ms / 1 h,
+//!   `i`/`j` a unary / server-streaming call that is in flight when the script cuts the cable,
+//!   `p` two callers at the same moment.  `e2d <L|E> <opts> <outcomes> <ops>` is `e2e` on an
+//!   Endpoint with options: `z`/`n`/`s`/`l` = `Endpoint::timeout`, `q` = `concurrency_limit(1)`,
+//!   `r` = `rate_limit(1, 80 ms)`.
 //! * `cls <chain>` — `Status::from_error` on an error whose `source()` chain is built from the
 //!   tokens (`W<id>` user error type, `I.<Kind>` io::Error, `C` tonic::ConnectError, `S<code>`
 //!   Status, `T` TimeoutExpired, `H2.<reason>` h2::Error, `L` a rustls error, `Yh` the error of a
@@ -176,6 +181,28 @@ pub fn generate(tier: &str, rng: &mut Rng) -> Vec<String> {
         "e2e L SSSS ijij",
         "e2n E SXS icc",
         "e2d L s SS icc",
+        // two callers at the same moment: the channel queues them; the first gets the failure of
+        // the attempt it triggered, the second triggers its own attempt
+        "e2e L FS p",
+        "e2e L FF pc",
+        "e2e L S pp",
+        "e2e L fS pc",
+        "e2e E SFS dpc",
+        "e2e E SFFS dpp",
+        "e2e L XS p",
+        "e2n L FS p",
+        // Endpoint::concurrency_limit(1) / rate_limit: a failed attempt, a call dying in flight or
+        // two callers at once must not leave the permit taken (the channel would be wedged)
+        "e2d L q FS cc",
+        "e2d L q FFS ccc",
+        "e2d L q FS pc",
+        "e2d L q SS ipc",
+        "e2d L q SFS cdpp",
+        "e2d E q SS jpc",
+        "e2d E q F c",
+        "e2d L r FS pcp",
+        "e2d L qr SFS cdccp",
+        "e2d L qs FS zcp",
     ] {
         out.push(c.to_string());
     }
@@ -222,6 +249,8 @@ pub fn generate(tier: &str, rng: &mut Rng) -> Vec<String> {
             out.push(format!("sess {} {} {}", m, env, 2 * n + 1));
             // in-flight deaths in a row
             if n <= 100 {
+                out.push(format!("e2d {} q {} {}", m, "SF".repeat(n) + "S", "ic".repeat(n) + "c"));
+                out.push(format!("e2d {} q {} {}", m, "F".repeat(n) + "S", "p".repeat(n / 2 + 1) + "c"));
                 out.push(format!("e2e {} {} {}", m, "S".repeat(n + 2), "i".repeat(n) + "c"));
                 out.push(format!("e2e {} {} {}", m, "SF".repeat(n) + "S", "ic".repeat(n) + "c"));
             }
@@ -385,6 +414,43 @@ pub fn generate(tier: &str, rng: &mut Rng) -> Vec<String> {
             }
         }
     }
+    // concurrent callers at every script position, with and without the limit layers
+    let ops_max = if thorough { 5 } else { 4 };
+    for m in modes {
+        for ops in all_strings_upto(&['c', 'p', 'd', 'i'], ops_max) {
+            if !ops.contains('p') {
+                continue;
+            }
+            let calls: usize = ops.chars().map(|c| match c { 'p' => 2, 'd' => 0, _ => 1 }).sum();
+            let attempts = calls + if m == "E" { 1 } else { 0 };
+            if attempts > 6 {
+                continue;
+            }
+            for outs in all_strings(&['F', 'S'], attempts) {
+                out.push(format!("e2e {} {} {}", m, tok(&outs), tok(&ops)));
+                if ops.len() < ops_max || thorough {
+                    let opt = ["q", "r", "qr"][outs.len() % 3];
+                    out.push(format!("e2d {} {} {} {}", m, opt, tok(&outs), tok(&ops)));
+                }
+            }
+        }
+    }
+    // the limit layers under plain fault scripts
+    let ops_max = if thorough { 6 } else { 4 };
+    for m in modes {
+        for opt in ["q", "r", "qr"] {
+            for ops in all_strings_upto(&['c', 'd', 'i'], ops_max) {
+                let calls = ops.chars().filter(|c| *c != 'd').count();
+                if calls == 0 {
+                    continue;
+                }
+                let attempts = calls + if m == "E" { 1 } else { 0 };
+                for outs in all_strings(&['F', 'S'], attempts) {
+                    out.push(format!("e2d {} {} {} {}", m, opt, tok(&outs), tok(&ops)));
+                }
+            }
+        }
+    }
     // Endpoint::timeout (channel-wide deadline) × per-call deadlines
     let ops_max = if thorough { 5 } else { 4 };
     for m in modes {
@@ -407,7 +473,7 @@ pub fn generate(tier: &str, rng: &mut Rng) -> Vec<String> {
         let olen = rng.range(1, if thorough { 14 } else { 9 }) as usize;
         let ops = rand_string(
             rng,
-            &[('c', 4), ('z', 3), ('n', 1), ('s', 1), ('l', 1), ('i', 2), ('j', 2), ('d', 2), ('g', 1)],
+            &[('c', 4), ('z', 3), ('n', 1), ('s', 1), ('l', 1), ('i', 2), ('j', 2), ('d', 2), ('g', 1), ('p', 2)],
             olen,
         );
         let alen = rng.range(0, olen as u64 + 2) as usize;
@@ -419,7 +485,7 @@ pub fn generate(tier: &str, rng: &mut Rng) -> Vec<String> {
             0 => out.push(format!("e2e {} {} {}", m, tok(&outs), tok(&ops))),
             1 if !(outs.contains('T') || outs.contains('t')) => out.push(format!("e2n {} {} {}", m, tok(&outs), tok(&ops))),
             _ => {
-                let et = *rng.pick(&["-", "n", "s", "l"]);
+                let et = *rng.pick(&["-", "n", "s", "l", "q", "r", "qr", "ql", "rs"]);
                 out.push(format!("e2d {} {} {} {}", m, et, tok(&outs), tok(&ops)));
             }
         }
@@ -1078,7 +1144,9 @@ fn call_tok(r: Result<Result<String, (tonic::Status, String)>, ()>, a: usize) ->
     }
 }
 
-fn run_e2e(lazy: bool, outcomes: &str, ops: &str, with_timeout: bool, endpoint_timeout: Option<Duration>) -> String {
+fn run_e2e(lazy: bool, outcomes: &str, ops: &str, with_timeout: bool, opts: &str) -> String {
+    let endpoint_timeout: Option<Duration> = opts.chars().find_map(deadline_of);
+    let (conc_limit, rate_limit) = (opts.contains('q'), opts.contains('r'));
     let rt = paused_rt();
     rt.block_on(async move {
         let (arrived_tx, mut arrived_rx) = tokio::sync::mpsc::unbounded_channel::<usize>();
@@ -1103,6 +1171,9 @@ fn run_e2e(lazy: bool, outcomes: &str, ops: &str, with_timeout: bool, endpoint_t
             Some(d) => endpoint.timeout(d),
             None => endpoint,
         };
+        // the optional limit layers between GrpcTimeout and Reconnect
+        let endpoint = if conc_limit { endpoint.concurrency_limit(1) } else { endpoint };
+        let endpoint = if rate_limit { endpoint.rate_limit(1, Duration::from_millis(80)) } else { endpoint };
         let mut out: Vec<String> = Vec::new();
         let attempts = |w: &Arc<Mutex<World>>| w.lock().unwrap().attempts;
         let channel = if lazy {
@@ -1164,6 +1235,54 @@ fn run_e2e(lazy: bool, outcomes: &str, ops: &str, with_timeout: bool, endpoint_t
                     cut_cables(&world).await;
                     tokio::time::sleep(QUIESCE).await;
                     out.push("d".into());
+                }
+                'p' => {
+                    // two callers at the same moment: both requests are handed to the channel
+                    // (first A, then B) before either result is awaited
+                    let mut ca = client.clone();
+                    let mut cb = client.clone();
+                    let fut = async {
+                        let ra = ca.ready().await.map_err(ready_err);
+                        let rb = cb.ready().await.map_err(ready_err);
+                        let path = http::uri::PathAndQuery::from_static("/verif.WhoAmI/Who");
+                        let fa = async {
+                            ra?;
+                            ca.unary::<Vec<u8>, Vec<u8>, _>(tonic::Request::new(b"hi".to_vec()), path.clone(), raw::RawCodec)
+                                .await
+                                .map(|resp| String::from_utf8_lossy(resp.get_ref()).to_string())
+                                .map_err(status_err)
+                        };
+                        let fb = async {
+                            rb?;
+                            cb.unary::<Vec<u8>, Vec<u8>, _>(tonic::Request::new(b"hi".to_vec()), path.clone(), raw::RawCodec)
+                                .await
+                                .map(|resp| String::from_utf8_lossy(resp.get_ref()).to_string())
+                                .map_err(status_err)
+                        };
+                        // join! polls `fa` first: A's request is queued before B's
+                        tokio::join!(fa, fb)
+                    };
+                    let r = tokio::time::timeout(WATCHDOG, fut).await;
+                    tokio::time::sleep(QUIESCE).await;
+                    let a = attempts(&world);
+                    match r {
+                        Err(_) => {
+                            out.push(format!("p=hang=hang=a{}", a));
+                            break;
+                        }
+                        Ok((ra, rb)) => {
+                            let sub = |r: Result<String, (tonic::Status, String)>| {
+                                let (t, _) = call_tok(Ok(r), a);
+                                // "c:<what>[:f<k>]:a<n>" → "<what>[:f<k>]"
+                                let inner = t.strip_prefix("c:").unwrap_or(&t);
+                                match inner.rfind(":a") {
+                                    Some(p) => inner[..p].to_string(),
+                                    None => inner.to_string(),
+                                }
+                            };
+                            out.push(format!("p={}={}=a{}", sub(ra), sub(rb), a));
+                        }
+                    }
                 }
                 'i' => {
                     // a unary call that is in flight (request delivered to the handler, no
@@ -1807,10 +1926,10 @@ pub fn execute(case: &str) -> String {
             Ok(n) => run_sess(*m == "L", env, n),
             Err(_) => "bad-case".into(),
         },
-        ["e2e", m, outs, ops] if *m == "L" || *m == "E" => run_e2e(*m == "L", outs, ops, true, None),
-        ["e2n", m, outs, ops] if *m == "L" || *m == "E" => run_e2e(*m == "L", outs, ops, false, None),
-        ["e2d", m, et, outs, ops] if (*m == "L" || *m == "E") && ["-", "z", "n", "s", "l"].contains(et) => {
-            run_e2e(*m == "L", outs, ops, true, et.chars().next().and_then(deadline_of))
+        ["e2e", m, outs, ops] if *m == "L" || *m == "E" => run_e2e(*m == "L", outs, ops, true, ""),
+        ["e2n", m, outs, ops] if *m == "L" || *m == "E" => run_e2e(*m == "L", outs, ops, false, ""),
+        ["e2d", m, et, outs, ops] if (*m == "L" || *m == "E") && (*et == "-" || et.chars().all(|c| "znslqr".contains(c))) => {
+            run_e2e(*m == "L", outs, ops, true, if *et == "-" { "" } else { et })
         }
         ["net", tr, m, script] if (*tr == "tcp" || *tr == "uds") && (*m == "L" || *m == "E") => run_net(tr, *m == "L", script),
         ["cls", chain] => run_cls(chain),
